@@ -115,6 +115,13 @@ fn plan_descs(w: &RWorld) -> Vec<String> {
         format!("tr({},{{and_v(v:pk({}/*),older(10)),{{pk({}),and_v(v:pk({}),sha256({}))}}}})", x(4), w.xpub[0], x(1), x(2), sh),
         format!("wsh(multi(1,{}/<0;1>/*,{}))", w.xpub[0], k(0)),
         format!("wpkh({}/1'/2h/*)", w.xpub[0]),
+        // uncompressed keys (and key hashes of them) where the context allows them as text
+        format!("pkh({})", w.w.pks[6]),
+        format!("sh(pkh({}))", w.w.pks[7]),
+        format!("sh(and_v(v:pkh({}),pk({})))", w.w.pks[6], k(0)),
+        format!("sh(or_d(pk({}),pkh({})))", w.w.pks[7], w.w.pks[6]),
+        format!("sh(multi(1,{},{}))", w.w.pks[6], k(1)),
+        format!("pk({})", w.w.pks[7]),
     ]
 }
 
